@@ -823,6 +823,23 @@ func (st *relayState) judgeRequest(op *Op, in *sipwire.Msg, ems []*Emitted, srcP
 		st.w.K.Failures = append(st.w.K.Failures, "harness: generated routing headers do not parse")
 		return
 	}
+	// what was learned before this request arrived decides C06; the request
+	// itself (and every re-arrival of it at one of the proxy's own listeners)
+	// teaches from now on
+	prior := map[string][]learnedAt{}
+	for h, la := range st.learned {
+		prior[h] = la
+	}
+	st.learn(op.Listen, op.Proto, op.SrcIP, inVias)
+	for _, e := range ems {
+		_, eip, eport := emissionDest(e.E)
+		if li, tr := c.listenerAt(eip, eport); li >= 0 && tr == e.E.Proto && e.M != nil {
+			if vs, err := e.M.Vias(); err == nil {
+				st.learn(li, tr, udpAddr(e.E.Src).IP.String(), vs)
+				st.w.stat("probe:spiral-arrival")
+			}
+		}
+	}
 	// --- C13: is the first Route entry the receiving listener? ---
 	consumed := false
 	if len(routes) > 0 {
@@ -966,7 +983,7 @@ func (st *relayState) judgeRequest(op *Op, in *sipwire.Msg, ems []*Emitted, srcP
 	switch d.class {
 	case "route":
 		if eproto != d.proto || got != d.hosts[0] {
-			st.v("C03", "wrong-destination", id, sig, "routed by Route to %s/%s, expected %s/%s", eproto, got, d.proto, d.hosts[0])
+			st.v("C03", "wrong-destination", id, sig+";got="+eproto+";want="+d.proto, "routed by Route to %s/%s, expected %s/%s", eproto, got, d.proto, d.hosts[0])
 		}
 	case "static":
 		ok := false
@@ -1040,15 +1057,18 @@ func (st *relayState) judgeRequest(op *Op, in *sipwire.Msg, ems []*Emitted, srcP
 			admissible = append(admissible, learnedAt{op.Listen, "tcp"})
 		}
 	} else {
-		if la, ok := st.learned[d.hopHost]; ok {
+		if st.isProxyAddr(d.hopHost) {
+			// the proxy's own addresses become "learned" through its own traffic
+			insert = "dontcare"
+		} else if la, ok := prior[d.hopHost]; ok {
 			insert = "yes"
-			admissible = la
+			admissible = st.learned[d.hopHost]
 		} else if st.taughtByThis(d.hopHost, op, inVias) || st.learnedUnderAnotherName(d.hopHost) {
 			insert = "dontcare"
+		} else {
+			_ = la
 		}
 	}
-	// learning happens on receipt
-	st.learn(op, inVias)
 
 	extra := len(outVias) - len(inVias)
 	st.judged("C06")
@@ -1259,9 +1279,22 @@ func (st *relayState) learnedUnderAnotherName(host string) bool {
 	return false
 }
 
-func (st *relayState) learn(op *Op, vias []sipwire.Via) {
+func (st *relayState) isProxyAddr(host string) bool {
+	ip, ok := st.c.resolve(host)
+	if !ok {
+		return false
+	}
+	for _, l := range st.c.Listens {
+		if l.Addr == ip {
+			return true
+		}
+	}
+	return false
+}
+
+func (st *relayState) learn(listen int, proto string, srcIP string, vias []sipwire.Via) {
 	add := func(h string) {
-		la := learnedAt{op.Listen, op.Proto}
+		la := learnedAt{listen, proto}
 		for _, x := range st.learned[h] {
 			if x == la {
 				return
@@ -1269,7 +1302,7 @@ func (st *relayState) learn(op *Op, vias []sipwire.Via) {
 		}
 		st.learned[h] = append(st.learned[h], la)
 	}
-	add(op.SrcIP)
+	add(srcIP)
 	for _, v := range vias {
 		add(v.Host)
 	}
@@ -1502,7 +1535,7 @@ func (st *relayState) judgeResponse(op *Op, in *sipwire.Msg, ems []*Emitted) {
 	e := ems[0]
 	eproto, eip, eport := emissionDest(e.E)
 	if eproto != wnt.proto || hostPort(eip, eport) != wnt.addr {
-		st.v("C02", "wrong-destination", id, sig, "response relayed to %s/%s, next Via %q means %s/%s", eproto, hostPort(eip, eport), next.Raw, wnt.proto, wnt.addr)
+		st.v("C02", "wrong-destination", id, "got="+eproto+";want="+wnt.proto, "response relayed to %s/%s, next Via %q means %s/%s", eproto, hostPort(eip, eport), next.Raw, wnt.proto, wnt.addr)
 	}
 	if e.M == nil {
 		return
